@@ -106,14 +106,37 @@ func strictMatch(q, p []string) bool {
 	return true
 }
 
-// strictPolicy is the statement's policy function: longest matching option wins.
+// matchEnd gives the length of the longest prefix of q that option path p
+// addresses (-1: none). For a concrete path that is len(p); for **.rest it is
+// the end of the deepest place at which rest occurs on the way to q.
+func matchEnd(q, p []string) int {
+	if len(p) > 0 && p[0] == "**" {
+		rest := p[1:]
+		for s := len(q) - len(rest); s >= 0; s-- {
+			if strictMatch(q[s:], rest) {
+				return s + len(rest)
+			}
+		}
+		return -1
+	}
+	if strictMatch(q, p) {
+		return len(p)
+	}
+	return -1
+}
+
+// strictPolicy is the statement's policy function: the subtree of an option is
+// merged as if its policy were the global one, so where subtrees nest the
+// innermost one decides (for concrete paths: the longest matching option).
+// The generator never produces two options whose subtrees start at the same
+// node, so there are no ties to break.
 func strictPolicy(g model.Policy, fos []fopt) model.PolicyFn {
 	return func(q []string) model.Policy {
 		best := -1
 		pol := g
 		for _, f := range fos {
-			if strictMatch(q, f.path) && len(f.path) > best {
-				best = len(f.path)
+			if e := matchEnd(q, f.path); e > best {
+				best = e
 				pol = fieldPols[f.h].p
 			}
 		}
@@ -185,6 +208,59 @@ func leakPolicy(g model.Policy, fos []fopt) model.PolicyFn {
 			t = k
 			if k.star >= 0 {
 				pol = fieldPols[k.star].p
+			}
+		}
+		return pol
+	}
+}
+
+// arrLeakPolicy is the as-built descent for concrete options combined with
+// **.name options, used ONLY as the predicate of a finding: when nothing is
+// configured for a key or index and the current level of the option tree has
+// "**" as its only NAME, the library hands that level down unchanged - together
+// with the positions configured in its list part. An option for l.0 combined
+// with any ** option therefore also fires at l.1.0, l.5.x.0, ...
+func arrLeakPolicy(g model.Policy, fos []fopt) model.PolicyFn {
+	var conc []fopt
+	wild := map[string]int{}
+	for _, f := range fos {
+		if isDoubleStar(f.path) {
+			wild[f.path[1]] = f.h
+		} else {
+			conc = append(conc, f)
+		}
+	}
+	root := buildTrie(conc)
+	onlyPositions := func(t *trie) bool {
+		for k := range t.kids {
+			if !isNum(k) {
+				return false
+			}
+		}
+		return len(t.kids) > 0
+	}
+	return func(q []string) model.Policy {
+		t := root
+		pol := g
+		for _, s := range q {
+			var k *trie
+			padded := false
+			if t != nil {
+				k = t.kids[s]
+				padded = k == nil && isNum(s) && t.paddedAt(s)
+			}
+			switch {
+			case k != nil && k.star >= 0:
+				pol, t = fieldPols[k.star].p, k
+			case k != nil:
+				t = k
+			default:
+				if h, ok := wild[s]; ok {
+					pol, t = fieldPols[h].p, nil
+				} else if padded || t == nil || !onlyPositions(t) {
+					t = nil
+				}
+				// else: the level is handed down as it is
 			}
 		}
 		return pol
@@ -393,6 +469,96 @@ func mergeModel(a, b *model.Node, pol model.PolicyFn) *model.Node {
 	return m
 }
 
+// isStarForm: the path uses the single-level wildcard.
+func isStarForm(p []string) bool {
+	for _, s := range p {
+		if s == "*" {
+			return true
+		}
+	}
+	return false
+}
+
+func isDoubleStar(p []string) bool { return len(p) > 0 && p[0] == "**" }
+
+func contains(p []string, s string) bool {
+	for _, x := range p {
+		if x == s {
+			return true
+		}
+	}
+	return false
+}
+
+// compatible: two options may be given together if the statement settles what
+// the combination means: their subtrees never start at the same node and a
+// **.name subtree never encloses the start of a concrete one (name does not
+// occur in the concrete path). Single-level wildcards are only used alone.
+func compatible(p1, p2 []string) bool {
+	if isStarForm(p1) || isStarForm(p2) || samePath(p1, p2) {
+		return false
+	}
+	d1, d2 := isDoubleStar(p1), isDoubleStar(p2)
+	switch {
+	case d1 && d2:
+		return p1[1] != p2[1]
+	case d1:
+		return !contains(p2, p1[1])
+	case d2:
+		return !contains(p1, p2[1])
+	}
+	return true
+}
+
+func comboKind(fos []fopt) string {
+	ds, cc := 0, 0
+	for _, f := range fos {
+		if isDoubleStar(f.path) {
+			ds++
+		} else {
+			cc++
+		}
+	}
+	return fmt.Sprintf("%dx**+%dxconcrete", ds, cc)
+}
+
+// removeNamed deletes every setting called name, at any depth.
+func removeNamed(n *model.Node, name string) {
+	if !n.IsSub() {
+		return
+	}
+	delete(n.D, name)
+	for _, c := range n.D {
+		removeNamed(c, name)
+	}
+	for _, c := range n.A {
+		removeNamed(c, name)
+	}
+}
+
+type decoy struct {
+	path []string
+	h    int
+}
+
+// decoyPolicy is the strict policy plus "the option also fires at its decoy":
+// used only as a monitor (would a leak to the decoy be visible in the result?).
+func decoyPolicy(g model.Policy, fos []fopt, ds []decoy) model.PolicyFn {
+	strict := strictPolicy(g, fos)
+	return func(q []string) model.Policy {
+		best, pol := -1, model.Policy(-1)
+		for _, d := range ds {
+			if model.HasPrefix(q, d.path) && len(d.path) > best {
+				best, pol = len(d.path), fieldPols[d.h].p
+			}
+		}
+		if best >= 0 {
+			return pol
+		}
+		return strict(q)
+	}
+}
+
 func (check) Run(seed int64, tier string, idx int, verbose bool) harness.Result {
 	res := harness.NewR(idx)
 	r := rand.New(rand.NewSource(harness.Mix(seed, "C16", idx)))
@@ -400,77 +566,222 @@ func (check) Run(seed int64, tier string, idx int, verbose bool) harness.Result 
 	g := globals[r.Intn(len(globals))]
 	a := gen.Top(r, o, 3)
 	b := gen.MutateTop(r, o, a, 3)
-	pickH := func() int {
+	pickHFor := func(gp model.Policy) int {
 		// prefer a per-field policy that differs from the global one
 		for i := 0; i < 3; i++ {
 			h := r.Intn(len(fieldPols))
-			if fieldPols[h].p != g.p {
+			if fieldPols[h].p != gp {
 				return h
 			}
 		}
 		return r.Intn(len(fieldPols))
 	}
+	pickH := func() int { return pickHFor(g.p) }
+
+	// --- the pool of options of this case: 1-3 options that may be combined
 	fos := []fopt{{genPath(r, a), pickH()}}
-	if r.Intn(4) == 0 {
-		f2 := fopt{genPath(r, b), pickH()}
-		if !samePath(f2.path, fos[0].path) && !hasWildcard(fos) && !hasWildcard([]fopt{f2}) {
-			fos = append(fos, f2)
+	extra := 0
+	switch x := r.Intn(100); {
+	case x < 45:
+	case x < 82:
+		extra = 1
+	default:
+		extra = 2
+	}
+	for e := 0; e < extra; e++ {
+		for try := 0; try < 4; try++ {
+			var p []string
+			if r.Intn(3) == 0 {
+				p = []string{"**", gen.Keys[r.Intn(len(gen.Keys))]}
+			} else if r.Intn(2) == 0 {
+				p = genPath(r, b)
+			} else {
+				p = genPath(r, a)
+			}
+			ok := true
+			for _, f := range fos {
+				if !compatible(f.path, p) {
+					ok = false
+				}
+			}
+			if ok {
+				fos = append(fos, fopt{p, pickH()})
+				break
+			}
 		}
 	}
-	if !hasWildcard(fos) && r.Intn(10) < 6 {
-		// plant list-bearing subtrees at the option path in both operands so
-		// that the per-field policy has something to decide
+
+	// --- plant list-bearing subtrees where the options (and their look-alikes
+	// at another depth) point, in both operands, so that policies decide something
+	var decoys []decoy
+	if !hasStarForm(fos) && r.Intn(10) < 6 {
+		type pl struct {
+			path []string
+			sub  *model.Node
+		}
+		var real, dec []pl
 		for _, f := range fos {
 			sa := listy(r)
-			plant(a, f.path, sa)
-			plant(b, f.path, gen.Mutate(r, o, sa, 2))
+			if isDoubleStar(f.path) {
+				// some concrete place called name
+				var p []string
+				for i, c := 0, r.Intn(3); i < c; i++ {
+					p = append(p, gen.Keys[r.Intn(len(gen.Keys))])
+				}
+				real = append(real, pl{append(p, f.path[1]), sa})
+				continue
+			}
+			real = append(real, pl{f.path, sa})
+			if r.Intn(2) == 0 {
+				// a decoy: the same names in the same order at another depth
+				// (first name dropped, or one more name/index somewhere before
+				// the last one)
+				var d []string
+				if len(f.path) > 1 && r.Intn(4) == 0 {
+					d = append(d, f.path[1:]...)
+				} else {
+					at := r.Intn(len(f.path))
+					d = append(d, f.path[:at]...)
+					if r.Intn(5) == 0 {
+						d = append(d, strconv.Itoa(r.Intn(2)))
+					} else {
+						d = append(d, gen.Keys[r.Intn(len(gen.Keys))])
+					}
+					d = append(d, f.path[at:]...)
+				}
+				dec = append(dec, pl{d, sa})
+				decoys = append(decoys, decoy{d, f.h})
+			}
+		}
+		for _, p := range append(dec, real...) {
+			plant(a, p.path, p.sub.Copy())
+			plant(b, p.path, gen.Mutate(r, o, p.sub, 2))
 		}
 		res.Ev("planted", 1)
+		// a decoy only counts if planting the real places left it standing and
+		// it is not itself inside an option's subtree
+		kept := decoys[:0]
+		for _, d := range decoys {
+			inside := false
+			for _, f := range fos {
+				if matchEnd(d.path, f.path) >= 0 {
+					inside = true
+				}
+			}
+			if !inside && pathExists(a, d.path) && pathExists(b, d.path) {
+				kept = append(kept, d)
+			}
+		}
+		decoys = kept
 	}
 	desc := fmt.Sprintf("global=%v options=%v A=%s B=%s", g.p, fos, a, b)
 	if idx < 2 {
 		res.Sample = desc
 	}
 
-	opts := []ucfg.Option{ucfg.PathSep(".")}
-	opts = append(opts, g.opts...)
-	for _, f := range fos {
-		opts = append(opts, fieldPols[f.h].mk(strings.Join(f.path, ".")))
+	// Option values are created ONCE per case and reused by all rounds below.
+	vals := make([]ucfg.Option, len(fos))
+	for i, f := range fos {
+		vals[i] = fieldPols[f.h].mk(strings.Join(f.path, "."))
 	}
-	var got string
-	panicked, pv, where := harness.Safe(func() {
-		c, err := mergeLib(a, b, opts)
-		res.Eval(2)
-		if err != nil {
-			res.Violate("merge-error", "Merge returned %v; %s", err, desc)
-			if p := obs.TypedErrorProblem(err); p != "" {
-				res.Violate("untyped-error", "%s", p)
+	fresh := func(fs []fopt) []ucfg.Option {
+		var l []ucfg.Option
+		for _, f := range fs {
+			l = append(l, fieldPols[f.h].mk(strings.Join(f.path, ".")))
+		}
+		return l
+	}
+	mkOpts := func(gopts []ucfg.Option, fieldOpts []ucfg.Option) []ucfg.Option {
+		opts := []ucfg.Option{ucfg.PathSep(".")}
+		opts = append(opts, gopts...)
+		return append(opts, fieldOpts...)
+	}
+	// lib merges x then y with opts and returns the canonical result.
+	lib := func(x, y *model.Node, opts []ucfg.Option, d string) (got string, ok bool) {
+		panicked, pv, where := harness.Safe(func() {
+			c, err := mergeLib(x, y, opts)
+			res.Eval(2)
+			if err != nil {
+				res.Violate("merge-error", "Merge returned %v; %s", err, d)
+				if p := obs.TypedErrorProblem(err); p != "" {
+					res.Violate("untyped-error", "%s", p)
+				}
+				return
 			}
-			return
+			got, err = obs.Top(c)
+			res.Eval(1)
+			if err != nil {
+				res.Violate("unpack-error", "Unpack failed: %v; %s", err, d)
+				return
+			}
+			ok = true
+		})
+		if panicked {
+			res.Violate("panic", "panic %q at %s; %s", pv, where, d)
+			return "", false
 		}
-		got, err = obs.Top(c)
-		res.Eval(1)
-		if err != nil {
-			res.Violate("unpack-error", "Unpack failed: %v; %s", err, desc)
-		}
-	})
-	if panicked {
-		res.Violate("panic", "panic %q at %s; %s", pv, where, desc)
-		return res.Done()
+		return got, ok
 	}
-	if len(res.Violations) > 0 {
-		return res.Done()
+	// classify compares a library result with the statement's model and names
+	// the deviation; known = explained by the (repaired) subsequence leak.
+	classify := func(got string, gl int, fs []fopt, x, y *model.Node, d string) (known bool) {
+		gp := globals[gl].p
+		strict := mergeModel(x, y, strictPolicy(gp, fs)).CanonTop()
+		leak := ""
+		if !hasDoubleStar(fs) {
+			leak = mergeModel(x, y, leakPolicy(gp, fs)).CanonTop()
+		}
+		if verbose {
+			fmt.Printf("%s\n got    %s\n strict %s\n leak   %s\n", d, got, strict, leak)
+		}
+		if got == strict {
+			return false
+		}
+		if leak != "" && got == leak {
+			res.Violate("field-policy-leaks-to-subsequence-paths", "a field option is applied at a node whose path merely contains the option path as a subsequence: got %s want %s; %s", got, strict, d)
+			return true
+		}
+		if hasDoubleStar(fs) && got == mergeModel(x, y, arrLeakPolicy(gp, fs)).CanonTop() {
+			res.Violate("list-position-option-leaks-deeper-when-combined-with-**", "an option for a list position, given together with a ** option, is also applied to the same position of lists further down: got %s want %s; %s", got, strict, d)
+			return false
+		}
+		if len(fs) >= 2 {
+			// does every option do the right thing when it is given alone?
+			alone := true
+			for _, f := range fs {
+				one := []fopt{f}
+				g1, ok := lib(x, y, mkOpts(globals[gl].opts, fresh(one)), d+" [option "+f.String()+" alone]")
+				if !ok || g1 != mergeModel(x, y, strictPolicy(gp, one)).CanonTop() {
+					alone = false
+				}
+			}
+			if alone {
+				sig := "field-options-right-alone-wrong-combined"
+				if hasDoubleStar(fs) {
+					sig += "-with-**"
+				}
+				res.Violate(sig, "each option alone gives the statement's result, together they do not: got %s want %s; %s", got, strict, d)
+				return false
+			}
+		}
+		res.Violate("field-policy-model-mismatch", "got %s want %s (as-built leak model: %s); %s", got, strict, leak, d)
+		return false
 	}
 
+	// --- round 0: all options of the pool, in order
+	opts := mkOpts(g.opts, vals)
+	got, ok := lib(a, b, opts, desc)
+	if !ok {
+		return res.Done()
+	}
+	gl := 0
+	for i := range globals {
+		if globals[i].p == g.p {
+			gl = i
+		}
+	}
 	strict := mergeModel(a, b, strictPolicy(g.p, fos)).CanonTop()
 	plain := mergeModel(a, b, model.Global(g.p))
-	leak := ""
-	if !hasDoubleStar(fos) {
-		leak = mergeModel(a, b, leakPolicy(g.p, fos)).CanonTop()
-	}
-	if verbose {
-		fmt.Printf("%s\n got    %s\n strict %s\n leak   %s\n plain  %s\n", desc, got, strict, leak, plain.CanonTop())
-	}
 	res.SetAdd("global", g.p.String())
 	for _, f := range fos {
 		res.SetAdd("field_policy", fieldPols[f.h].name)
@@ -484,6 +795,9 @@ func (check) Run(seed int64, tier string, idx int, verbose bool) harness.Result 
 			form = "name.*.name"
 		}
 		res.SetAdd("path_form", fmt.Sprintf("%s/len%d", form, len(f.path)))
+		if isDoubleStar(f.path) {
+			continue
+		}
 		if pathExists(a, f.path) || pathExists(b, f.path) {
 			res.Ev("option_path_present", 1)
 		} else {
@@ -491,24 +805,94 @@ func (check) Run(seed int64, tier string, idx int, verbose bool) harness.Result 
 		}
 	}
 	res.SetAdd("options_per_merge", strconv.Itoa(len(fos)))
+	if len(fos) > 1 {
+		res.SetAdd("combination", comboKind(fos))
+		if hasDoubleStar(fos) && comboKind(fos)[len("0x**+"):] != "0xconcrete" {
+			res.Ev("combined_**_with_concrete", 1)
+		}
+		// does the combination decide more than any single option of it?
+		more := true
+		for _, f := range fos {
+			if mergeModel(a, b, strictPolicy(g.p, []fopt{f})).CanonTop() == strict {
+				more = false
+			}
+		}
+		if more {
+			res.Ev("combination_differs_from_every_single_option", 1)
+		}
+	}
+	if len(decoys) > 0 {
+		res.Ev("decoy_same_names_at_other_depth", int64(len(decoys)))
+		if mergeModel(a, b, decoyPolicy(g.p, fos, decoys)).CanonTop() != strict {
+			res.Ev("decoy_would_show_a_leak", 1)
+		}
+	}
 	if strict != plain.CanonTop() {
 		res.Key(desc)
 		res.Ev("option_changes_result", 1)
 	}
-	known := leak != "" && got == leak && got != strict
-	switch {
-	case got == strict:
-	case known:
-		res.Violate("field-policy-leaks-to-subsequence-paths", "a field option is applied at a node whose path merely contains the option path as a subsequence: got %s want %s; %s", got, strict, desc)
-	default:
-		res.Violate("field-policy-model-mismatch", "got %s want %s (as-built leak model: %s); %s", got, strict, leak, desc)
+	known := classify(got, gl, fos, a, b, desc)
+
+	// --- further rounds: the SAME Option values in other calls (another
+	// selection, another order, another global policy, operands swapped). An
+	// Option is a value: what it does may not depend on the calls it was part
+	// of before. Differential twin: the same call with newly created options.
+	if !known && len(res.Violations) == 0 && r.Intn(2) == 0 {
+		history := fmt.Sprintf("[call 1: %v]", fos)
+		for rd, n := 0, 1+r.Intn(2); rd < n; rd++ {
+			perm := r.Perm(len(fos))
+			sel := perm[:1+r.Intn(len(perm))]
+			g2 := gl
+			if r.Intn(2) == 0 {
+				g2 = r.Intn(len(globals))
+			}
+			x, y := a, b
+			if r.Intn(3) == 0 {
+				x, y = b, a
+			}
+			var fs []fopt
+			var vs []ucfg.Option
+			for _, i := range sel {
+				fs = append(fs, fos[i])
+				vs = append(vs, vals[i])
+			}
+			d := fmt.Sprintf("global=%v options=%v (Option values reused from earlier calls %s) A=%s B=%s", globals[g2].p, fs, history, x, y)
+			history += fmt.Sprintf(" [call %d: %v]", rd+2, fs)
+			gotR, ok := lib(x, y, mkOpts(globals[g2].opts, vs), d)
+			if !ok {
+				break
+			}
+			gotF, ok := lib(x, y, mkOpts(globals[g2].opts, fresh(fs)), d+" [twin with new Option values]")
+			if !ok {
+				break
+			}
+			res.Ev("reuse_calls", 1)
+			if len(fs) < len(fos) {
+				res.Ev("reuse_calls_with_fewer_options", 1)
+				full := mergeModel(x, y, strictPolicy(globals[g2].p, fos)).CanonTop()
+				if full != mergeModel(x, y, strictPolicy(globals[g2].p, fs)).CanonTop() {
+					// a left-over of a dropped option would be visible here
+					res.Ev("reuse_calls_where_dropped_option_would_show", 1)
+				}
+			}
+			if g2 != gl {
+				res.Ev("reuse_calls_other_global", 1)
+			}
+			if gotR != gotF {
+				res.Violate("reused-option-value-carries-state-across-merges", "an Option value that already took part in other Merge calls gives another result than a newly created one: reused %s, new %s; %s", gotR, gotF, d)
+				break
+			}
+			if classify(gotR, g2, fs, x, y, d) || len(res.Violations) > 0 {
+				break
+			}
+		}
 	}
 
-	// model-independent laws (skipped where the known leak explains the result)
+	// model-independent laws on round 0 (skipped where the known leak explains the result)
 	if known {
 		return res.Done()
 	}
-	panicked, pv, where = harness.Safe(func() {
+	panicked, pv, where := harness.Safe(func() {
 		cPlain, err := mergeLib(a, b, append([]ucfg.Option{ucfg.PathSep(".")}, g.opts...))
 		res.Eval(2)
 		if err != nil {
@@ -532,25 +916,34 @@ func (check) Run(seed int64, tier string, idx int, verbose bool) harness.Result 
 			}
 		}
 		// law 1: outside the subtrees named by the options nothing changes
-		if !hasWildcard(fos) {
+		// (options made of names only, or **.name: everything called name)
+		if !hasStarForm(fos) {
 			names := true
 			for _, f := range fos {
-				if !allNames(f.path) {
+				if !isDoubleStar(f.path) && !allNames(f.path) {
 					names = false
 				}
 			}
 			if names {
 				var mw, mp map[string]interface{}
-				cWith, _ := mergeLib(a, b, opts)
+				cWith, _ := mergeLib(a, b, mkOpts(g.opts, fresh(fos)))
 				if cWith == nil || cWith.Unpack(&mw) != nil || cPlain.Unpack(&mp) != nil {
 					return
 				}
 				nw, np := model.FromIfc(mw), model.FromIfc(mp)
 				for _, f := range fos {
-					removeAt(nw, f.path)
-					removeAt(np, f.path)
+					if isDoubleStar(f.path) {
+						removeNamed(nw, f.path[1])
+						removeNamed(np, f.path[1])
+					} else {
+						removeAt(nw, f.path)
+						removeAt(np, f.path)
+					}
 				}
 				res.Ev("law_outside_unaffected_checked", 1)
+				if hasDoubleStar(fos) {
+					res.Ev("law_outside_unaffected_checked_with_**", 1)
+				}
 				if nw.Canon() != np.Canon() {
 					res.Violate("law-outside-subtree-affected", "settings outside the option's subtree differ from the plain global merge: with option %s, plain %s; %s", nw.Canon(), np.Canon(), desc)
 				}
@@ -561,4 +954,13 @@ func (check) Run(seed int64, tier string, idx int, verbose bool) harness.Result 
 		res.Violate("panic", "panic %q at %s in laws; %s", pv, where, desc)
 	}
 	return res.Done()
+}
+
+func hasStarForm(fos []fopt) bool {
+	for _, f := range fos {
+		if isStarForm(f.path) {
+			return true
+		}
+	}
+	return false
 }
